@@ -19,6 +19,10 @@ func genTV(cfg core.GenCfg) func(t *rapid.T) TV {
 	return func(t *rapid.T) TV {
 		var s *core.StructSpec
 		if refs := cfg.NamedRefs; len(refs) > 0 && rapid.IntRange(0, 3).Draw(t, "toplevelNamed") == 0 {
+			// half of the named picks from the curated shapes (a few dozen among the generated ones)
+			if cur := curatedRefs(refs); len(cur) > 0 && rapid.Bool().Draw(t, "curated") {
+				refs = cur
+			}
 			s = core.LookupSpec(rapid.SampledFrom(refs).Draw(t, "top"))
 		} else {
 			s = core.GenStruct(t, cfg)
@@ -161,4 +165,16 @@ func runC01(w *worker) func(c TV) *Failure {
 func TestC01(t *testing.T) {
 	w := newWorker(t, "C01")
 	drive(t, caseRunner[TV]{w: w, gen: genTV(c01Cfg()), run: runC01(w), journalled: true})
+}
+
+// curatedRefs: the hand-written named types among refs (generated ones are N000, N001, ...).
+func curatedRefs(refs []string) []string {
+	var out []string
+	for _, n := range refs {
+		if len(n) == 4 && n[0] == 'N' && n[1] >= '0' && n[1] <= '9' {
+			continue
+		}
+		out = append(out, n)
+	}
+	return out
 }
